@@ -120,6 +120,12 @@ pub fn exec(ctx: &mut Ctx, stream: &[u8], limit: usize, cuts: &[usize]) -> bool 
         if end <= start {
             continue;
         }
+        if si > 0 && (si + stream.len()) % 2 == 0 {
+            if let Some(e) = r.empty_read(si % 4 == 0) {
+                return fail(ctx, "fault", e);
+            }
+            ctx.rep.count("empty_reads_between_segments");
+        }
         r.script.push_read(ReadEv::Data(stream[start..end].to_vec(), Vec::new()));
         start = end;
         while r.script.pending_reads() > 0 {
